@@ -498,6 +498,15 @@ class StackFx:
                     if not isinstance(a, ast.Name):
                         self.ev(a, st, cx)
                 return None
+        # growing a local list of known length
+        if isinstance(f, ast.Attribute) and isinstance(f.value, ast.Name) and f.attr == 'append' and len(e.args) == 1:
+            cur = st.env.get(f.value.id)
+            self.ev(e.args[0], st, cx)
+            if isinstance(cur, tuple) and cur[0] == 'len' and isinstance(cur[1], int):
+                st.env[f.value.id] = ('len', cur[1] + 1)
+            else:
+                st.env.pop(f.value.id, None)
+            return None
         # any other call: arguments are evaluated; handing the own stack to unknown code is dynamic
         for a in e.args:
             if self._is_own_stack(a, cx):
@@ -622,8 +631,7 @@ class StackFx:
         if isinstance(s, ast.For):
             return self._for(s, st, cx)
         if isinstance(s, ast.While):
-            self.ev(s.test, st, cx)
-            return self._neutral_loop(s.body, st, cx, assigned=_assigned(s))
+            return self._while(s, st, cx)
         if isinstance(s, ast.Try):
             return self._try(s, st, cx)
         if isinstance(s, ast.Return):
@@ -780,6 +788,38 @@ class StackFx:
         else:
             outs += [('fall', x) for x in live]
         return outs
+
+    def _while(self, s: ast.While, st: State, cx):
+        """A while loop whose condition stays known (a counter counted down, a list filled up to a known length)
+        is run concretely; as soon as the condition is unknown the loop has to be stack-neutral."""
+        outs = []
+        live = [st]
+        for _ in range(MAX_UNROLL + 1):
+            nxt = []
+            for x in live:
+                probe = x.copy()
+                t = self._truth(self.ev(s.test, probe, cx))
+                if t is None:
+                    # unknown from here on: the remaining iterations must be neutral
+                    outs += self._neutral_loop(s.body, probe, cx, assigned=_assigned(s), orelse=s.orelse)
+                    continue
+                if t is False:
+                    if s.orelse:
+                        outs += self._block(s.orelse, [probe], cx)
+                    else:
+                        outs.append(('fall', probe))
+                    continue
+                for k, s2 in self._block(s.body, [probe], cx):
+                    if k in ('fall', 'continue'):
+                        nxt.append(s2)
+                    elif k == 'break':
+                        outs.append(('fall', s2))
+                    else:
+                        outs.append((k, s2))
+            live = _dedup(nxt)
+            if not live:
+                return outs
+        raise _Dyn()
 
     def _neutral_loop(self, body, st, cx, assigned, orelse=None):
         """Unknown trip count: every way through the body must leave the depth where it was and never
